@@ -22,6 +22,7 @@ mod ev;
 mod gen;
 mod jq;
 mod reval;
+mod rparse;
 mod rterm;
 mod rval;
 mod tracecmp;
